@@ -16,8 +16,6 @@ type Aff struct {
 	ok bool
 }
 
-func (a Aff) plus(k int64) Aff { a.K += k; return a }
-
 // fnScope gathers per-function facts needed to resolve local aliases.
 type fnScope struct {
 	info *types.Info
@@ -83,79 +81,6 @@ func newFnScope(info *types.Info, body ast.Node) *fnScope {
 	return s
 }
 
-// singleDef returns the unique defining expression of a local variable that is
-// assigned exactly once, or nil.
-func (s *fnScope) singleDef(o types.Object) ast.Expr {
-	d := s.defs[o]
-	if len(d) == 1 && d[0] != nil {
-		return d[0]
-	}
-	return nil
-}
-
-// aff resolves an int expression into len(x)+k / k, following single-def locals.
-func (s *fnScope) aff(e ast.Expr) Aff {
-	return s.affDepth(e, 0)
-}
-
-func (s *fnScope) affDepth(e ast.Expr, depth int) Aff {
-	if depth > 6 {
-		return Aff{}
-	}
-	e = unparen(e)
-	if k, ok := constInt(s.info, e); ok {
-		return Aff{K: k, ok: true}
-	}
-	switch x := e.(type) {
-	case *ast.CallExpr:
-		if a := lenArg(s.info, x); a != nil {
-			return Aff{Of: s.canon(a), ok: true}
-		}
-		// conversion int(...)
-		if len(x.Args) == 1 {
-			if tv, ok := s.info.Types[x.Fun]; ok && tv.IsType() {
-				if b, ok := tv.Type.Underlying().(*types.Basic); ok && b.Info()&types.IsInteger != 0 {
-					return s.affDepth(x.Args[0], depth+1)
-				}
-			}
-		}
-		// x.Len() on a slice-backed type whose Len returns len(receiver) is not assumed.
-	case *ast.BinaryExpr:
-		if x.Op == token.ADD || x.Op == token.SUB {
-			l := s.affDepth(x.X, depth+1)
-			r := s.affDepth(x.Y, depth+1)
-			if l.ok && r.ok && r.Of == nil {
-				if x.Op == token.ADD {
-					return l.plus(r.K)
-				}
-				return l.plus(-r.K)
-			}
-			if l.ok && r.ok && l.Of == nil && x.Op == token.ADD {
-				return r.plus(l.K)
-			}
-		}
-	case *ast.Ident:
-		if o := objOf(s.info, x); o != nil {
-			if d := s.singleDef(o); d != nil {
-				return s.affDepth(d, depth+1)
-			}
-		}
-	}
-	return Aff{}
-}
-
-// canon follows single-def local aliases of a collection expression
-// (`ml2 := g.(T)` stays as ml2; conversions T(x) are stripped).
-func (s *fnScope) canon(e ast.Expr) ast.Expr {
-	e = unparen(e)
-	if call, ok := e.(*ast.CallExpr); ok && len(call.Args) == 1 {
-		if tv, ok := s.info.Types[call.Fun]; ok && tv.IsType() {
-			return s.canon(call.Args[0])
-		}
-	}
-	return e
-}
-
 // Loop describes a recognised counting loop.
 type Loop struct {
 	Stmt  ast.Stmt
@@ -167,185 +92,4 @@ type Loop struct {
 	Hi    Aff          // one past the largest index visited
 	Down  bool
 	Range bool
-}
-
-// loopOf recognises `for`/`range` loops over an index interval.  It returns
-// nil when the loop is not in the recognised family (caller decides whether
-// that is undecided).
-func (s *fnScope) loopOf(st ast.Stmt) *Loop {
-	switch st := st.(type) {
-	case *ast.RangeStmt:
-		t := s.info.TypeOf(st.X)
-		if t == nil {
-			return nil
-		}
-		switch u := t.Underlying().(type) {
-		case *types.Slice, *types.Array:
-		case *types.Pointer:
-			if _, ok := u.Elem().Underlying().(*types.Array); !ok {
-				return nil
-			}
-		case *types.Basic:
-			if u.Info()&types.IsInteger != 0 { // range n
-				l := &Loop{Stmt: st, Body: st.Body, Range: true, Lo: Aff{ok: true}, Hi: s.aff(st.X)}
-				if st.Key != nil {
-					l.Idx = objOf(s.info, st.Key)
-				}
-				if !l.Hi.ok {
-					return nil
-				}
-				return l
-			}
-			return nil
-		default:
-			return nil
-		}
-		l := &Loop{Stmt: st, Body: st.Body, Range: true, Over: s.canon(st.X), Lo: Aff{ok: true}}
-		l.Hi = Aff{Of: s.canon(st.X), ok: true}
-		// range over a reslice x[a:b]
-		if se, ok := unparen(st.X).(*ast.SliceExpr); ok {
-			_ = se
-			return nil
-		}
-		if st.Key != nil {
-			if id, ok := st.Key.(*ast.Ident); !ok || id.Name != "_" {
-				l.Idx = objOf(s.info, st.Key)
-			}
-		}
-		if st.Value != nil {
-			if id, ok := st.Value.(*ast.Ident); !ok || id.Name != "_" {
-				l.Val = objOf(s.info, st.Value)
-			}
-		}
-		if l.Idx != nil && s.writtenIn(l.Idx, st.Body) {
-			return nil
-		}
-		return l
-	case *ast.ForStmt:
-		if st.Init == nil || st.Cond == nil || st.Post == nil {
-			return nil
-		}
-		post, ok := st.Post.(*ast.IncDecStmt)
-		var idx types.Object
-		down := false
-		if ok {
-			idx = objOf(s.info, post.X)
-			down = post.Tok == token.DEC
-		} else if as, ok := st.Post.(*ast.AssignStmt); ok && len(as.Lhs) == 1 && (as.Tok == token.ADD_ASSIGN || as.Tok == token.SUB_ASSIGN) {
-			if k, ok := constInt(s.info, as.Rhs[0]); ok && k == 1 {
-				idx = objOf(s.info, as.Lhs[0])
-				down = as.Tok == token.SUB_ASSIGN
-			}
-		}
-		if idx == nil {
-			return nil
-		}
-		init, ok := st.Init.(*ast.AssignStmt)
-		if !ok || len(init.Lhs) != len(init.Rhs) {
-			return nil
-		}
-		var start Aff
-		extra := map[types.Object]ast.Expr{}
-		for i, lh := range init.Lhs {
-			o := objOf(s.info, lh)
-			if o == idx {
-				start = s.aff(init.Rhs[i])
-			} else if o != nil {
-				extra[o] = init.Rhs[i]
-			}
-		}
-		if !start.ok {
-			return nil
-		}
-		if s.writtenIn(idx, st.Body) {
-			return nil
-		}
-		cond, ok := unparen(st.Cond).(*ast.BinaryExpr)
-		if !ok {
-			return nil
-		}
-		resolve := func(e ast.Expr) Aff {
-			if o := objOf(s.info, e); o != nil {
-				if d, ok := extra[o]; ok && !s.writtenIn(o, st.Body) {
-					return s.aff(d)
-				}
-			}
-			return s.aff(e)
-		}
-		op := cond.Op
-		var bound Aff
-		if objOf(s.info, cond.X) == idx {
-			bound = resolve(cond.Y)
-		} else if objOf(s.info, cond.Y) == idx {
-			bound = resolve(cond.X)
-			switch op {
-			case token.LSS:
-				op = token.GTR
-			case token.GTR:
-				op = token.LSS
-			case token.LEQ:
-				op = token.GEQ
-			case token.GEQ:
-				op = token.LEQ
-			}
-		} else {
-			return nil
-		}
-		if !bound.ok {
-			return nil
-		}
-		l := &Loop{Stmt: st, Body: st.Body, Idx: idx, Down: down}
-		if !down {
-			l.Lo = start
-			switch op {
-			case token.LSS, token.NEQ:
-				l.Hi = bound
-			case token.LEQ:
-				l.Hi = bound.plus(1)
-			default:
-				return nil
-			}
-		} else {
-			l.Hi = start.plus(1)
-			switch op {
-			case token.GEQ:
-				l.Lo = bound
-			case token.GTR, token.NEQ:
-				l.Lo = bound.plus(1)
-			default:
-				return nil
-			}
-		}
-		return l
-	}
-	return nil
-}
-
-// writtenIn: is obj assigned (or its address taken) inside n?
-func (s *fnScope) writtenIn(obj types.Object, n ast.Node) bool {
-	w := false
-	ast.Inspect(n, func(m ast.Node) bool {
-		switch m := m.(type) {
-		case *ast.AssignStmt:
-			for _, l := range m.Lhs {
-				if objOf(s.info, l) == obj {
-					w = true
-				}
-			}
-		case *ast.IncDecStmt:
-			if objOf(s.info, m.X) == obj {
-				w = true
-			}
-		case *ast.UnaryExpr:
-			if m.Op == token.AND && objOf(s.info, m.X) == obj {
-				w = true
-			}
-		case *ast.RangeStmt:
-			if (m.Key != nil && objOf(s.info, m.Key) == obj) || (m.Value != nil && objOf(s.info, m.Value) == obj) {
-				w = true
-			}
-		}
-		return !w
-	})
-	return w
 }
